@@ -351,6 +351,10 @@ func (g *ExprGen) GenVarSet(r *Rand) VarSet {
 	for _, n := range g.VarSeq {
 		vs[n] = GenValue(r, g.Vars[strings.ToUpper(n)])
 	}
+	if len(g.VarSeq) > 1 && r.Bool(0.08) {
+		// one variable is missing from this set: its evaluations take the error path
+		delete(vs, g.VarSeq[r.Intn(len(g.VarSeq))])
+	}
 	if len(g.VarSeq) > 0 && r.Bool(0.6) {
 		order := append([]string{}, g.VarSeq...)
 		r.Shuffle(len(order), func(i, j int) { order[i], order[j] = order[j], order[i] })
@@ -358,6 +362,9 @@ func (g *ExprGen) GenVarSet(r *Rand) VarSet {
 		for _, n := range order {
 			if r.Bool(0.25) {
 				out = append(out, fmt.Sprintf("unused%d", r.Intn(4)))
+			}
+			if _, ok := vs[n]; !ok {
+				continue
 			}
 			out = append(out, n)
 			if r.Bool(0.2) {
